@@ -247,12 +247,12 @@ SPECS["C04"] = {
 }
 
 SPECS["C09"] = {
-    "parts": [{"engine": "m", "module": "c09"}],
+    "parts": [{"engine": "m", "module": "c09"}, {"engine": "m", "module": "c09ops"}],
     "functions": ["dicom_object::meta::FileMetaTable::{update_information_group_length, calculate_information_group_length, into_element_iter}", "dicom_object::meta::dicom_len",
                   "dicom_parser::stateful::encode::StatefulEncoder::encode_primitive_element and the Explicit VR LE header / primitive encoders (as in C04)"],
     "bounds": "quick: 6 presence masks of the optional attributes (none, all, each end, two mixed) with a length pattern chosen by VERIF_SEED; thorough: all 64 masks x 4 length patterns; string lengths 0..5 (odd and even), "
-              "private information 0..3 bytes; characters symbolic (the last character of every third string may be a pad character, NUL or space)",
-    "outside": "reading the group back (FileMetaTable::read_from), attribute operations on the table, FileMetaTableBuilder::build and its defaults, files with and without preamble; longer strings (the arithmetic is per field: "
+              "private information 0..3 bytes; characters symbolic (the last character of every third string may be a pad character, NUL or space); operations: one operation per instance, 3 attributes (thorough 5: required and optional strings) x 9 actions (SetStr, SetStrIfMissing, ReplaceStr, Set, SetIfMissing, Remove, Empty, SetVr, Truncate) x optional attributes all absent / all present, new text of 4 symbolic characters",
+    "outside": "reading the group back (FileMetaTable::read_from), sequences of more than one operation (each operation starts from a table with a correct length, which is what the previous one is shown to leave), operations on the binary and version attributes, FileMetaTableBuilder::build and its defaults, files with and without preamble; longer strings (the arithmetic is per field: "
                "dicom_len rounds to even, the encoder pads)",
     "assumptions": ["the elements go straight from into_element_iter to encode_primitive_element (DataSetWriter::write_sequence / IntoTokens between them are covered by C04's token streams)",
                     "text codec contract: default repertoire is its own encoding", "vec!/smallvec! lowering (Box::new_uninit, box_assume_init_into_vec_unsafe, SmallVec::from_vec) modelled as list construction"],
